@@ -1025,7 +1025,8 @@ Init ==
   /\ last = Lab(0, "init", "", "", "", TRUE, FALSE)
   /\ pre = [p \in Procs |-> [store |-> <<>>, cluster |-> <<>>]]
   /\ \E k \in (IF LateStart THEN 0..(2 * MaxPlan) ELSE {0}) :
-       hist = <<[step |-> "init", cluster |-> cluster, store |-> [r \in Rev |-> store[r].ch], late |-> k]>>
+       hist = <<[step |-> "init", cluster |-> cluster, store |-> [r \in Rev |-> store[r].ch],
+                 sts |-> [r \in Rev |-> store[r].st], late |-> k]>>
   /\ kfg = {}
 
 Spec == Init /\ [][Next]_vars
